@@ -979,7 +979,11 @@ func exec(p Plan) (evid.Outcome, error) {
 	for _, g := range r.failedOpens {
 		// give a leaked goroutine a moment to show up (observation only: not
 		// seeing one is never a verdict).
-		for i := 0; i < 100; i++ {
+		polls := 100
+		if p.NoExclude {
+			polls = 4000 // demonstrations may wait up to 2 s for the evidence
+		}
+		for i := 0; i < polls; i++ {
 			if n, _ := g.lateOps(); n > 0 || g.lg.fataled() {
 				break
 			}
